@@ -56,6 +56,9 @@ def _task(task):
             rng = np.random.default_rng([task['seed'], 606])
             common = dict(bootstrap_factor=1.0, bootstrap_iteration=3, n_runners_up=3,
                           flatten=task.get('flatten', False), drop_level=task.get('drop_level'))
+            if task.get('no_tmp_dir'):
+                # without a scratch directory the query file is read in place (not through a private copy)
+                common['tmp_dir'] = None
             if task.get('max_gb') is not None:
                 # a memory budget so small that the CSC -> CSR rewrite of the query reads its values in
                 # several load chunks (boundaries fall inside columns and move when cells are added / removed)
@@ -86,7 +89,9 @@ def _task(task):
         enc = task['world'].get('encoding', 'dense')
 
         def run_q(Xn, idn, cfg=None):
-            p = fx.write_query(world, Xn, idn, genes, encoding=enc)
+            # every transformed query of this world is written to the SAME path, one after the other, in
+            # this process: a result must not depend on what was read from that path before
+            p = fx.write_query(world, Xn, idn, genes, encoding=enc, reuse_path=True)
             blob, _ = fx.run_mapping_world(world, fx.mapping_config(world, query_path=p, **(cfg or base_cfg)))
             return blob
 
@@ -161,7 +166,7 @@ def tasks_for(tier, seed):
     ]
     out = []
     for i, p in enumerate(plan):
-        t = dict(p, seed=int(seed) + i, reps=2 if quick else 6)
+        t = dict(p, seed=int(seed) + i, reps=2 if quick else 6, no_tmp_dir=(i % 2 == 0))
         if quick:
             t['chunking'] = [(1, 1), (3, 3), (23, 2)] if i % 2 == 0 else [(18, 1), (5, 2), (2, 3)]
         out.append(t)
